@@ -118,12 +118,27 @@ char **econf_freeArray(char **a) { if (a) { for (size_t i = 0; a[i]; i++) free(a
 econf_file *econf_freeFile(econf_file *kf) { if (kf) { if (freefile_n < 4) freefile_log[freefile_n] = kf; freefile_n++; } return NULL; }
 void econf_errLocation(char **filename, uint64_t *line_nr) { err_loc_calls++; *filename = strdup("/f"); *line_nr = 3; }
 const char *econf_errString(const econf_err e) { err_str_calls++; return "msg"; }
+/* C19: the tool shows what the LIBRARY returns for the same arguments: vendor
+ * directory first, then the local one, the name/suffix it split off, and the
+ * caller's delimiter and comment sets */
+static const char *want_delim, *want_comment;
+#define LAYER_ARGS_OK (a == usr_root_dir && b == root_dir && n == conf_basename && s == conf_suffix && \
+                       (want_delim == NULL || (d == want_delim && c == want_comment)))
 econf_err econf_readFile(econf_file **r, const char *f, const char *d, const char *c)
-{ *r = api_ret == ECONF_SUCCESS ? &the_obj : NULL; return api_ret; }
+{
+  __CPROVER_assert(want_delim == NULL || (d == want_delim && c == want_comment), "C19: a single file is read with the caller's delimiter and comment sets");
+  *r = api_ret == ECONF_SUCCESS ? &the_obj : NULL; return api_ret;
+}
 econf_err econf_readDirs(econf_file **r, const char *a, const char *b, const char *n, const char *s, const char *d, const char *c)
-{ *r = api_ret == ECONF_SUCCESS ? &the_obj : NULL; return api_ret; }
+{
+  __CPROVER_assert(LAYER_ARGS_OK, "C19: the layered read gets (vendor dir, local dir, name, suffix, delimiters, comments) in the library's order");
+  *r = api_ret == ECONF_SUCCESS ? &the_obj : NULL; return api_ret;
+}
 econf_err econf_readDirsHistory(econf_file ***kfs, size_t *size, const char *a, const char *b, const char *n, const char *s, const char *d, const char *c)
-{ if (api_ret == ECONF_SUCCESS) { *kfs = api_hist; *size = api_hist_size; } else { *kfs = NULL; *size = 0; } return api_ret; }
+{
+  __CPROVER_assert(LAYER_ARGS_OK, "C19: the history read gets (vendor dir, local dir, name, suffix, delimiters, comments) in the library's order");
+  if (api_ret == ECONF_SUCCESS) { *kfs = api_hist; *size = api_hist_size; } else { *kfs = NULL; *size = 0; } return api_ret;
+}
 econf_err nondet_code(void);
 
 int main(void)
@@ -144,7 +159,9 @@ int main(void)
   bool show = nondet_bool();
   conf_filename[0] = nondet_bool() ? '/' : 'c'; conf_filename[1] = 0;
   econf_file *kf = NULL;
-  int r = econf_read(&kf, "=", "#", show);
+  static const char dl[] = "=", cm[] = "#";
+  want_delim = dl; want_comment = cm;
+  int r = econf_read(&kf, dl, cm, show);
   __CPROVER_assert((r != 0) == (api_ret != ECONF_SUCCESS), "C19: syntax/show fail exactly when the library reports an error");
   if (api_ret != ECONF_SUCCESS)
     __CPROVER_assert(err_loc_calls >= 1 && err_str_calls >= 1 && stderr_lines >= 1,
@@ -186,7 +203,9 @@ int main(void)
   for (int i = 0; i < 3; i++) api_hist[i] = &hist_obj[i];
   api_hist[3] = NULL; api_hist_size = nh;
   conf_filename[0] = 'c'; conf_filename[1] = 0;
-  int r = econf_cat("=", "#");
+  static const char dl[] = "=", cm[] = "#";
+  want_delim = dl; want_comment = cm;
+  int r = econf_cat(dl, cm);
   __CPROVER_assert((r != 0) == (api_ret != ECONF_SUCCESS), "C19: cat fails exactly when the library reports an error");
   if (api_ret == ECONF_SUCCESS) {
     __CPROVER_assert(getpath_n == nh, "C19: cat lists every consulted file once");
